@@ -221,6 +221,20 @@ func c04Case(w *core.Worker, i int) {
 		}
 		kinds = append(kinds, "planted-collision")
 	}
+	// … and triples in which a text ending in the escape character of the key serialisation stands next to the delimiter
+	if nk >= 3 && n >= 4 && r.P(70) {
+		tr := [][2][3]string{
+			{{"x\\", "y", "z:[S]w"}, {"x:[S]y", "z\\", "w"}},
+			{{"a\\", "b", "c"}, {"a", "\\b", "c"}},
+			{{"p\\:", "q", "r"}, {"p", "\\:q", "r"}},
+			{{"k\\", ":[S]v", "m"}, {"k\\:[S]", "v", "m"}},
+		}[r.Intn(4)]
+		for k := 0; k < 2; k++ {
+			row := t.Rows[r.Intn(n)]
+			row[1], row[2], row[3] = core.Sp(tr[k][0]), core.Sp(tr[k][1]), core.Sp(tr[k][2])
+		}
+		kinds = append(kinds, "planted-escape-collision")
+	}
 	core.WriteFiles(w.Work, map[string]string{"t.csv": t.CSV()})
 	s, err := core.NewSess(core.SessOpts{Dir: w.Work, CPU: cpu, StrictEqual: strict})
 	if err != nil {
